@@ -598,13 +598,52 @@ func sweepCounts(yield func(discCase) bool) {
 	}
 }
 
+// sweepLarge: a discovery on a network where more than a thousand datagrams arrive within the window (a flat site network with a
+// chatty neighbour): a valid reply first, noise of every malformed class, three valid replies at the very end - with various
+// GOMAXPROCS settings, totals just above the powers of two and not multiples of small numbers.
+func sweepLarge(yield func(discCase) bool) {
+	l := spec.Responses["GetDevices"]
+	i := 0
+	for _, total := range []int{1023, 1025, 1026, 1027, 1029, 2051, 4099} {
+		for _, procs := range []int{0, 3, 4, 7} {
+			i++
+			if !ev.Mine(i) || (!ev.Thorough() && (i+int(ev.Seed()))%3 != 0) {
+				continue
+			}
+			c := discCase{Layer: "hook", Procs: procs}
+			c.Datagrams = append(c.Datagrams, spec.Sample(l, 0x17, 400000001, 1))
+			for k := 0; k < total-4; k++ {
+				d := spec.Sample(l, 0x17, uint32(500000000+k), k%7)
+				switch k % 4 {
+				case 0:
+					d = d[:63]
+				case 1:
+					d[0] = 0x18
+				case 2:
+					d[1] = 0x92
+				default:
+					d[l.Field("date").Off+1] = 0x1a
+				}
+				c.Datagrams = append(c.Datagrams, d)
+			}
+			for k := 0; k < 3; k++ {
+				c.Datagrams = append(c.Datagrams, spec.Sample(l, 0x17, uint32(400000002+k), 2+k))
+			}
+			if !yield(c) {
+				return
+			}
+		}
+	}
+}
+
 func props() []rp.Prop {
 	return []rp.Prop{
-		rp.P[discCase]{Name: "hook-discovery", Checks: ev.Pick(24000, 3000000) / ev.Shards(), Gen: genCase("hook"), Check: check},
+		rp.P[discCase]{Name: "hook-discovery", Checks: ev.Pick(24000, 3000000) / ev.Shards(), Gen: genCase("hook"), Sweep: sweepLarge, Check: check},
 		rp.P[discCase]{Name: "socket-discovery", Checks: ev.Pick(320, 19200) / ev.Shards(), Gen: genCase("socket"), Sweep: sweepCounts, Check: check},
 		rp.P[burstCase]{Name: "burst", Sweep: sweepBurst, Check: checkBurst},
 		rp.P[stallCase]{Name: "debug-output-stalls", Sweep: sweepStall, Check: checkStall},
 		rp.P[queuedCase]{Name: "discovery-queued-for-the-bind-port", Sweep: sweepQueued, Check: checkQueued},
+		rp.P[noisyCase]{Name: "noisy-neighbour", Sweep: sweepNoisy, Check: checkNoisy},
 	}
 }
 
